@@ -186,6 +186,8 @@ def tlc_scenario_to_harness(js, sid, driver):
                     elif (h // 24) % 3 == 0:
                         flags["tpl"] = ["validate", "validate-false", "validate-none", "validate-server", "validate-client"][(h // 72) % 5]
                         flags["replace"] = True      # helm template always sets Replace (no name check)
+                    # helm template --include-crds only changes what is printed
+                    flags["includeCRDs"] = (h // 360) % 2 == 0 and bool(m.get("clientOnly") or flags.get("tpl"))
             s = {"op": m["kind"], "flags": flags, "proc": st.get("p", 1)}
             if m["chart"] != "none":
                 s["chart"] = m["chart"]
